@@ -596,8 +596,8 @@ func (g *genCtx) method(name string, hasBase bool) *Method {
 		m.Resp = g.props(h.Rng.IntN(4), 0, false)
 	}
 	if h.Chance(1, 60) && !contains(propNames(m.Req), "query") {
-		// open finding client:err:list-response-shape: a j5.list.v1.QueryRequest property on a method
-		// whose response is (most likely) not list shaped; the compiler accepts it
+		// repaired finding client:err:list-response-shape: a j5.list.v1.QueryRequest property on a method
+		// whose response is (most likely) not list shaped; the compiler has to reject it (fix 57821b0)
 		m.Req = append(m.Req, &Prop{Name: "query", T: &Type{K: "X", Pkg: "j5.list.v1", Name: "QueryRequest"}})
 	}
 	return m
@@ -618,6 +618,13 @@ func (impl) Gen(h *vh.H, i int) string {
 			// Not filtered: both sides have to answer compile-err (a compiler that lets it through
 			// again shows up as `fail client` + oracle failure client:err:list-enum-default)
 			h.Count("gen.must-reject.enum-default")
+			return op
+		}
+		if Expect(spec).BadList != "" {
+			// "the compiler must reject" class: a QueryRequest on a method whose response is not exactly
+			// one array of objects (fix 57821b0); a compiler that lets it through again shows up as
+			// `fail client` + oracle failure client:err:list-response-shape
+			h.Count("gen.must-reject.list-shape")
 			return op
 		}
 		res := callWorker(h, "valid "+strings.TrimPrefix(op, "chain "), false)
